@@ -8,7 +8,7 @@ from . import common as C
 # --------------------------------------------------------------------------- transforms (oracle side)
 
 def tr_apply(op, data):
-    if op in ("keep", "fail", "slowkeep", "barrierkeep"):
+    if op in ("keep", "fail", "slowkeep", "barrierkeep", "failonce"):
         return data
     if op == "shrink":
         return data[:2]
